@@ -6,17 +6,16 @@ import (
 	"bytes"
 	"math/big"
 
-	vmcommon "github.com/ElrondNetwork/elrond-vm-common"
 	"pgregory.net/rapid"
 )
 
 var allFunctionNames = []string{
-	vmcommon.BuiltInFunctionClaimDeveloperRewards, vmcommon.BuiltInFunctionChangeOwnerAddress, vmcommon.BuiltInFunctionSetUserName,
-	vmcommon.BuiltInFunctionSaveKeyValue, vmcommon.BuiltInFunctionESDTTransfer, vmcommon.BuiltInFunctionESDTBurn, vmcommon.BuiltInFunctionESDTFreeze,
-	vmcommon.BuiltInFunctionESDTUnFreeze, vmcommon.BuiltInFunctionESDTWipe, vmcommon.BuiltInFunctionESDTPause, vmcommon.BuiltInFunctionESDTUnPause,
-	vmcommon.BuiltInFunctionSetESDTRole, vmcommon.BuiltInFunctionUnSetESDTRole, vmcommon.BuiltInFunctionESDTLocalMint, vmcommon.BuiltInFunctionESDTLocalBurn,
-	vmcommon.BuiltInFunctionESDTNFTTransfer, vmcommon.BuiltInFunctionESDTNFTCreate, vmcommon.BuiltInFunctionESDTNFTAddQuantity, vmcommon.BuiltInFunctionESDTNFTCreateRoleTransfer,
-	vmcommon.BuiltInFunctionESDTNFTBurn, vmcommon.BuiltInFunctionESDTNFTAddURI, vmcommon.BuiltInFunctionESDTNFTUpdateAttributes, vmcommon.BuiltInFunctionMultiESDTNFTTransfer,
+	refBuiltInFunctionClaimDeveloperRewards, refBuiltInFunctionChangeOwnerAddress, refBuiltInFunctionSetUserName,
+	refBuiltInFunctionSaveKeyValue, refBuiltInFunctionESDTTransfer, refBuiltInFunctionESDTBurn, refBuiltInFunctionESDTFreeze,
+	refBuiltInFunctionESDTUnFreeze, refBuiltInFunctionESDTWipe, refBuiltInFunctionESDTPause, refBuiltInFunctionESDTUnPause,
+	refBuiltInFunctionSetESDTRole, refBuiltInFunctionUnSetESDTRole, refBuiltInFunctionESDTLocalMint, refBuiltInFunctionESDTLocalBurn,
+	refBuiltInFunctionESDTNFTTransfer, refBuiltInFunctionESDTNFTCreate, refBuiltInFunctionESDTNFTAddQuantity, refBuiltInFunctionESDTNFTCreateRoleTransfer,
+	refBuiltInFunctionESDTNFTBurn, refBuiltInFunctionESDTNFTAddURI, refBuiltInFunctionESDTNFTUpdateAttributes, refBuiltInFunctionMultiESDTNFTTransfer,
 }
 
 // reshard places the call where the node would execute it first: on the caller's shard, or - when the caller lives on
@@ -66,18 +65,18 @@ func (g *Gen) genAlias() *Call {
 	switch g.pick("al-kind", 5) {
 	case 0: // NFT transfer reading the entry under a shorter identifier
 		k := 1 + g.pick("al-cut", 2)
-		c = &Call{Fn: vmcommon.BuiltInFunctionESDTNFTTransfer, Args: hbs(full[:len(full)-k], full[len(full)-k:], amt, to)}
+		c = &Call{Fn: refBuiltInFunctionESDTNFTTransfer, Args: hbs(full[:len(full)-k], full[len(full)-k:], amt, to)}
 	case 1: // multi transfer, same trick
 		k := 1 + g.pick("al-cut", 2)
-		c = &Call{Fn: vmcommon.BuiltInFunctionMultiESDTNFTTransfer, Args: hbs(to, []byte{1}, full[:len(full)-k], full[len(full)-k:], amt)}
+		c = &Call{Fn: refBuiltInFunctionMultiESDTNFTTransfer, Args: hbs(to, []byte{1}, full[:len(full)-k], full[len(full)-k:], amt)}
 	case 2: // multi transfer naming the whole key as a nonce-less identifier
-		c = &Call{Fn: vmcommon.BuiltInFunctionMultiESDTNFTTransfer, Args: hbs(to, []byte{1}, full, []byte{}, amt)}
+		c = &Call{Fn: refBuiltInFunctionMultiESDTNFTTransfer, Args: hbs(to, []byte{1}, full, []byte{}, amt)}
 	case 3: // fungible transfer naming the whole key
-		c = &Call{Fn: vmcommon.BuiltInFunctionESDTTransfer, Args: hbs(full, amt)}
+		c = &Call{Fn: refBuiltInFunctionESDTTransfer, Args: hbs(full, amt)}
 		c.Caller, c.Rcv = cp(h.addr), cp(to)
 	default: // burn / add-quantity on an aliased key (needs a role on the bogus identifier: expected to fail)
 		k := 1 + g.pick("al-cut", 2)
-		fn := pickFrom(g, "al-fn", []string{vmcommon.BuiltInFunctionESDTNFTBurn, vmcommon.BuiltInFunctionESDTNFTAddQuantity, vmcommon.BuiltInFunctionESDTNFTAddURI})
+		fn := pickFrom(g, "al-fn", []string{refBuiltInFunctionESDTNFTBurn, refBuiltInFunctionESDTNFTAddQuantity, refBuiltInFunctionESDTNFTAddURI})
 		c = &Call{Fn: fn, Args: hbs(full[:len(full)-k], full[len(full)-k:], amt)}
 	}
 	if c.Caller == nil {
@@ -144,7 +143,7 @@ func (g *Gen) mutateOnce(c *Call) {
 				{1, 0, 0, 0, 0, 0, 0, 0, 0}, {3, 0, 0, 0, 0, 0, 0, 0, 0}, {1, 0, 0, 0, 0, 0, 0, 0, 0, 0, 0, 0, 0, 0, 0, 0, 0}}) // the last three: non-zero numbers whose low 64 bits are zero
 		}
 	case "count":
-		if c.Fn == vmcommon.BuiltInFunctionMultiESDTNFTTransfer && len(args) >= 2 {
+		if c.Fn == refBuiltInFunctionMultiESDTNFTTransfer && len(args) >= 2 {
 			c.Args = append([]HB{}, args...)
 			c.Args[1] = pickFrom(g, "mut-count", wrapResidues)
 			g.Shape = append(g.Shape, "wrap-residue")
@@ -152,11 +151,11 @@ func (g *Gen) mutateOnce(c *Call) {
 	case "address-arg":
 		idx := -1
 		switch c.Fn {
-		case vmcommon.BuiltInFunctionESDTNFTTransfer:
+		case refBuiltInFunctionESDTNFTTransfer:
 			idx = 3
-		case vmcommon.BuiltInFunctionMultiESDTNFTTransfer, vmcommon.BuiltInFunctionChangeOwnerAddress:
+		case refBuiltInFunctionMultiESDTNFTTransfer, refBuiltInFunctionChangeOwnerAddress:
 			idx = 0
-		case vmcommon.BuiltInFunctionESDTNFTCreateRoleTransfer:
+		case refBuiltInFunctionESDTNFTCreateRoleTransfer:
 			idx = 1
 		}
 		if idx >= 0 && idx < len(args) {
